@@ -334,6 +334,7 @@ func vcRunC12(t *vcTrial, cell vc12Cell) {
 	readPos := uint64(0)
 	ncalls := 0
 	closeCalled := false
+	handlerInstalled := false
 	for ci, call := range calls {
 		reps := 1
 		if r.chance(25) {
@@ -348,6 +349,7 @@ func vcRunC12(t *vcTrial, cell vc12Cell) {
 			}
 			ch := make(chan res, 1)
 			have := inner.inputBuffer.Len()
+			callMark := vcTraceMark()
 			go func() {
 				var x res
 				defer func() {
@@ -377,6 +379,19 @@ func vcRunC12(t *vcTrial, cell vc12Cell) {
 				}
 			}
 			ncalls++
+			if call.Name == "SetOnRequest" {
+				// From here on the handler task owns the reader: with input buffered on a closed
+				// connection it starts at once, consumes, runs the close callbacks and recycles the
+				// buffers on its own goroutine. Calling Reader methods beside it would be the harness
+				// breaking the one-reader rule, so the history waits until that teardown is complete.
+				handlerInstalled = true
+				cid := vcConnID(A)
+				if !vcSeenSince(t.Mark, vpCloseCbDone, cid) {
+					if vcWaitPoint(callMark, vpTaskStart, cid, 20*time.Millisecond) {
+						vcWaitPoint(callMark, vpCloseCbDone, cid, 5*time.Second)
+					}
+				}
+			}
 			desc := fmt.Sprintf("%s (call %d, rep %d) on a connection closed by %s, input buffered at that time %d, cell %+v", call.Name, ci, rep, cell.CloseMode, have, cell)
 			if x.pan != nil {
 				kind, prop := "panic", "C12"
@@ -402,7 +417,7 @@ func vcRunC12(t *vcTrial, cell vc12Cell) {
 					t.Violate("C12", "reader_error", "%s: the peer closed (no local close) but the error %v does not match ErrEOF", desc, x.err)
 				}
 			case "reader-byte", "reader-read":
-				if have > 0 && peerOnly && !cell.Callbacks {
+				if have > 0 && peerOnly && !cell.Callbacks && !handlerInstalled {
 					// buffered bytes remain readable after a peer close
 					if x.err != nil {
 						t.Violate("C12", "buffered_unreadable", "%s failed with %v although %d bytes are still buffered after the peer closed", desc, x.err, have)
